@@ -87,4 +87,5 @@ example : urlParseB .u8 (ofStr "??http://h/p#!!") 2 12 none none (UrlInfo.ofUrl 
 #print axioms C04_agrees_url_parse
 #print axioms C04_agrees_url_parse_u32
 #print axioms C04_agrees_url_parse_range
+#print axioms unitsOk_uok
 end Upa.Props
